@@ -656,10 +656,10 @@ func c06Principal(c *eng.Ctx) {
 	r := f.Params[1]
 	isRemoteAddr := func(v ssa.Value) bool {
 		fr, base, ok := eng.LoadedField(v)
-		return ok && fr.Name == "RemoteAddr" && eng.Origin(base) == r
+		return ok && fr.Name == "RemoteAddr" && eng.OriginX(base) == ssa.Value(r)
 	}
 	var whois, parse *ssa.Call
-	eng.Instrs(f, func(in ssa.Instruction) {
+	eng.InstrsDeep(f, func(_ *ssa.Function, in ssa.Instruction) {
 		call, ok := in.(*ssa.Call)
 		if !ok {
 			return
